@@ -1,6 +1,7 @@
 /-
   C06 — Per-block GroupSize/GroupIndex sets are sound and exact.
 -/
+import TealerModel.Props.TieFlow
 import TealerModel.Props.Common
 import TealerModel.Props.Tie
 import TealerModel.Props.TieMatchers
@@ -122,5 +123,13 @@ theorem C06_tie_matchers (intcs : Option (List Nat)) (ins : List Ins) (kind : Ke
         Generated.getAssertedGroupindices (TieM.envOf intcs) (TieM.envOf intcs) (treeOf (constructAst ins) (n + 1) (some (p, o))) :=
   ⟨TieM.groupsizes_tie intcs _ (TieM.arity_constructAst ins) kind n p o,
    fun base hb => TieM.groupindices_tie intcs _ (TieM.arity_constructAst ins) base hb kind n p o⟩
+
+/-- the block-level constraint of this analysis is computed by the Python's own `_block_level_constraints`, translated on this
+    run (instance of `TieF.block_tie`; edge constraints and transfer functions: `C01_tie_constraints`, `C01_tie_transfer_functions`) -/
+theorem C06_tie_block_constraint (intcs : Option (List Nat)) (b : FBlock) (key : Key) (n : Nat) :
+    blockConstraint groupIndicesAnalysis intcs b key =
+      Generated.blockLevelConstraints (TieM.envOf intcs) groupIndicesAnalysis.dom (groupIndicesAnalysis.univ key.base)
+        (TieF.gaOf groupIndicesAnalysis intcs (constructAst b.ins) key (b.ins.length + 1)) (TieM.envOf intcs) key (TieF.fblockView b n) :=
+  TieF.block_tie groupIndicesAnalysis intcs b key n
 
 end Tealer.C06
